@@ -139,7 +139,9 @@ def harness_for(item):
                 env.eq("toys:bkg-toys-at-asimov-mu", calls[3]["poi_val"], 1.0 if ts == "q0" else 0.0, key="wiring:toys")
                 smp = env.backend.samples if env.mode == "sym" else None
                 if smp is not None and len(smp) >= 2:
+                    env.sym_only = True      # draw shapes are only observable on the sampler stub
                     env.holds("toys:sample-shape", all(tuple(x["sample_shape"]) == (1,) for x in smp), key="wiring:toys")
+                    env.sym_only = False
             return
         # ---- asymptotics: wiring of the five fits --------------------------------------------------------
         kinds = [c["kind"] for c in calls]
